@@ -3,7 +3,6 @@
 use proptest::prelude::*;
 use response_time_analysis::supply::{self, SupplyBound};
 use serde::{Deserialize, Serialize};
-use serde_json::json;
 
 use crate::engine::*;
 use crate::supply_ref::*;
@@ -308,10 +307,7 @@ fn exhaustive(tier: Tier, _seed: u64) -> ExtraResult {
     // literal enumeration of all placements of q slots within the first dl slots of each of
     // `periods` consecutive periods, all window positions: min service == provided_service
     let (pmax, periods) = tier.pick((4u64, 3usize), (5u64, 4usize));
-    let mut r = ExtraResult {
-        exhaustive: true,
-        ..Default::default()
-    };
+    let mut r = ExtraResult { exhaustive: true, replay_subcheck: "small", ..Default::default() };
     for p in 1..=pmax {
         for dl in 1..=p {
             for q in 1..=dl {
@@ -361,7 +357,7 @@ fn exhaustive(tier: Tier, _seed: u64) -> ExtraResult {
                     let got = su(con.provided_service(d(delta as u64)));
                     if got != minserv[delta] {
                         r.failure = Some((
-                            json!({"q": q, "d": dl, "p": p, "delta": delta}),
+                            serde_json::to_value(SmallCase { supply: SupplySpec::Constrained { q, d: dl, p }, placements: vec![] }).unwrap(),
                             format!("Constrained({},{},{}).provided_service({}) = {} but the exhaustive minimum over all placements is {}", q, dl, p, delta, got, minserv[delta]),
                         ));
                         return r;
@@ -370,7 +366,7 @@ fn exhaustive(tier: Tier, _seed: u64) -> ExtraResult {
                         let got = su(per.provided_service(d(delta as u64)));
                         if got != minserv[delta] {
                             r.failure = Some((
-                                json!({"q": q, "p": p, "delta": delta}),
+                                serde_json::to_value(SmallCase { supply: SupplySpec::Periodic { q, p }, placements: vec![] }).unwrap(),
                                 format!("Periodic({},{}).provided_service({}) = {} but the exhaustive minimum over all placements is {}", q, p, delta, got, minserv[delta]),
                             ));
                             return r;
